@@ -41,13 +41,13 @@ def main():
         conds.append(Cond("vf.ch.h_engine", "check_lifecycle_q" if chk.tier == "quick" else "check_lifecycle", f"lifecycle for epoch types INITIAL,{ts} (needs_history={nh}, {up} of 3 epochs configured up-front, others appended while sampling): "
                           "start / duration transitions with within-epoch time 0..d-1 and continuing global time / end / tune iff adaptation (with that epoch's recorded history on request) / "
                           "exactly one end_warmup immediately before the first posterior epoch",
-                          timeout_s=600 if chk.tier == "quick" else 1200, env={"TYPES": ts, "NK": "2", "NH": nh, "STORE": str(store), "UPFRONT": str(up), "QG": str(qg)}, signature=f"lifecycle:{ts}"))
+                          timeout_s=600 if chk.tier == "quick" else 1200, env={"TYPES": ts, "NK": "2", "NH": nh, "STORE": str(store), "UPFRONT": str(up), "QG": str(qg), "WERR": ["", "k1", "k0"][qi % 3]}, signature=f"lifecycle:{ts}"))
     if chk.tier == "thorough":
         for qg, (s4, nh, store, up) in enumerate([((1, 2, 3, 4), "10", 1, 2), ((2, 2, 4, 4), "01", 1, 4), ((1, 3, 4, 4), "11", 0, 1), ((3, 1, 2, 4), "10", 1, 3), ((1, 4, 4, 4), "01", 0, 0), ((2, 1, 1, 3), "11", 1, 2)]):
             qg = qg % 3
             ts = ",".join(map(str, s4))
             conds.append(Cond("vf.ch.h_engine", "check_all4", f"four epochs INITIAL,{ts} (needs_history={nh}, {up}/4 up-front): lifecycle, stored chains and key terms", timeout_s=2400,
-                              env={"TYPES": ts, "NK": "2", "NH": nh, "STORE": str(store), "UPFRONT": str(up), "QG": str(qg)}, signature=f"four-epochs:{ts}"))
+                              env={"TYPES": ts, "NK": "2", "NH": nh, "STORE": str(store), "UPFRONT": str(up), "QG": str(qg), "WERR": ["k0", "", "k1"][qg]}, signature=f"four-epochs:{ts}"))
     # the fake environment is validated on every run against the real Engine on real JAX (jit disabled) on three fixed schedules
     from ..ch import validate_fake
     ok, msg, n = validate_fake.compare()
@@ -59,7 +59,7 @@ def main():
     chk.functions += ["liesel.goose.engine.Engine.__init__/sample_all_epochs/sample_next_epoch/append_epoch/_start_epoch/_kernel_start_epoch/_sample_for_duration/_sample_many/_end_epoch/_tune_kernels/_end_warmup/_split_prng_key",
                       "liesel.goose.kernel_sequence.KernelSequence.*", "liesel.goose.epoch.EpochManager/EpochState", "liesel.goose.kernel.TransitionMixin.transition / TuningMixin.tune",
                       "liesel.goose.chain.EpochChainManager/ListEpochChain (history handed to tune)"]
-    chk.bounds += ["3 epochs after the initial one; symbolic durations <= 2,2,3 (thorough: 3,3,4), thinning <= duration, chunk <= 2 (thorough 3) dividing all durations", "2 kernels; per-kernel needs_history, store_kernel_states and the number of epochs configured up-front (others appended one at a time after sampling started) enumerated per condition", "one representative chain (vmap = identity)"]
+    chk.bounds += ["3 epochs after the initial one; symbolic durations <= 2,2,3 (thorough: 3,3,4), thinning <= duration, chunk <= 2 (thorough 3) dividing all durations", "2 kernels; per-kernel needs_history, store_kernel_states, which kernel (none / first / second) reports a non-zero end_warmup error code, and the number of epochs configured up-front (others appended one at a time after sampling started) enumerated per condition", "one representative chain (vmap = identity)"]
     chk.enumerated += [f"epoch types INITIAL,{','.join(map(str, s))} needs_history={nh} store_kernel_states={st} upfront={up}" for s, nh, st, up in pl]
     chk.assume("the fake environment is compared on every run with the real Engine on real JAX (jit disabled) on three fixed schedules: call logs, history lengths and stored chains must be identical",
                "fake environment contracts: vmap(f)=f on one chain, jit(f)=f, lax.scan = loop + stacking, lax.cond = if, random.split = free-algebra key terms, expand_dims/concatenate on per-time cell lists, np.arange/% /== /mask indexing on integer lists",
